@@ -3,6 +3,7 @@ package poolsim
 import (
 	"bytes"
 	"fmt"
+	"time"
 
 	"verif/gen/chaingen"
 	"verif/ref/refacct"
@@ -441,11 +442,20 @@ func (p *PS) MineTemplate(expectSuccess bool) {
 	}
 	// update time / extra nonce keep it valid
 	if p.R.Bool() {
-		p.F.Clock.Set(p.F.Clock.Now() + int64(p.R.Intn(120)))
+		jump := int64(p.R.Intn(120))
+		bitsBefore := blk.Header.Bits
+		if p.G.P.ReduceMinDifficulty && p.R.Bool() {
+			// carry the template across the point where the minimum-difficulty exception starts to apply
+			jump += int64(p.G.P.MinDiffReductionTime/time.Second) + 1
+		}
+		p.F.Clock.Set(p.F.Clock.Now() + jump)
 		if err := p.F.Gen.UpdateBlockTime(blk); err != nil {
 			p.Fail("template:UpdateBlockTime", "UpdateBlockTime: %v", err)
 		}
 		p.K.Count("template.update_time", 1)
+		if blk.Header.Bits != bitsBefore {
+			p.K.Count("template.update_time_across_min_difficulty_boundary", 1)
+		}
 	}
 	if p.R.Bool() {
 		if err := p.F.Gen.UpdateExtraNonce(blk, height, p.R.Uint64()>>uint(p.R.Intn(60))); err != nil {
